@@ -34,22 +34,30 @@ theorem getElem?_lt_length {α : Type} (l : List α) (k : Nat) (a : α) (h : l[k
   | inl hlt => exact hlt
   | inr hge => rw [List.getElem?_eq_none hge] at h; cases h
 
-/-- **every crash state of a history satisfies the C01 invariant**: its tables are those of the canonical state of
-the block its pointer names, with its pool applied -/
-theorem history_SInv (e : Env) (g : St) (n : Node) (ops : List Op) (H : History e g n ops)
+/-- every crash state satisfies the C01 invariant as soon as the nodes of the uninterrupted run do and the walks of the
+history meet `WalkTree` -/
+theorem crashStates_SInv (e : Env) (g : St) (n : Node) (ops : List Op) (hinv : KVInv e g) (htree : TreeValid e g)
+    (hs : ∀ k, k ≤ ops.length → SInv e g (run e n (ops.take k)).s)
+    (hw : ∀ k dest prune, ops[k]? = some (.walk dest prune) → WalkTree e (run e n (ops.take k)).s.pointer dest)
     (x : Node) (hx : x ∈ crashStates e n ops) : SInv e g x.s := by
-  obtain ⟨k, hk, h | ⟨dest, prune, hop, _, hs⟩⟩ := mem_crashStates e ops n x hx
-  · rw [h]; exact H.sinv k hk
-  · have W := (H.walks k dest prune hop).tree
+  obtain ⟨k, hk, h | ⟨dest, prune, hop, _, hs'⟩⟩ := mem_crashStates e ops n x hx
+  · rw [h]; exact hs k hk
+  · have W := hw k dest prune hop
     have hlt := getElem?_lt_length ops k _ hop
-    refine walkTrace_SInv e _ _ dest prune g W H.kv (H.tree _) (H.sinv k hk) ?_ x.s hs
+    refine walkTrace_SInv e _ _ dest prune g W hinv (htree _) (hs k hk) ?_ x.s hs'
     intro hok
-    have hfin := (H.sinv (k + 1) hlt).pool
+    have hfin := (hs (k + 1) hlt).pool
     rw [run_take_succ e n ops k _ hop] at hfin
     have hp : (runOp e (run e n (ops.take k)) (.walk dest prune)).s.pointer = dest :=
       walk_reaches_any e _ _ dest prune W.lower W.destId hok
     rw [hp] at hfin
     exact hfin
+
+/-- **every crash state of a history satisfies the C01 invariant**: its tables are those of the canonical state of
+the block its pointer names, with its pool applied -/
+theorem history_SInv (e : Env) (g : St) (n : Node) (ops : List Op) (H : History e g n ops)
+    (x : Node) (hx : x ∈ crashStates e n ops) : SInv e g x.s :=
+  crashStates_SInv e g n ops H.kv H.tree H.sinv (fun k dest prune hop => (H.walks k dest prune hop).tree) x hx
 
 /-- **every crash state of a history satisfies the C02 ledger invariant** for a suitable ghost log -/
 theorem history_Ledger (e : Env) (g : St) (n : Node) (ops : List Op) (H : History e g n ops)
